@@ -338,10 +338,20 @@ fn conv_integer(tier: Tier) -> Vec<Case> {
                     continue;
                 }
                 let mut case = conv_case("ConvInteger", &c, x.clone(), w.clone(), extra);
-                case.class = format!("{}; {}", case.class, zn);
-                case.vclass = format!("x {} w {}", xdt.name(), wdt.name());
+                case.class = zn.to_string();
+                case.vclass = String::new();
                 out.push(case);
             }
+        }
+    }
+    // many output channels: more than one full row panel of the packed weight matrix
+    for (xs, ws) in [(vec![1usize, 2, 6], vec![17usize, 2, 3]), (vec![1, 2, 5, 5], vec![20, 2, 3, 3])] {
+        for (xdt, wdt) in [(Dt::U8, Dt::U8), (Dt::U8, Dt::I8)] {
+            let x = fill_table(xdt, &xs, &[3.0, 0.0, 255.0, 17.0, 128.0, 1.0], 1, 0);
+            let w = if wdt == Dt::U8 { fill_table(wdt, &ws, &[1.0, 200.0, 0.0, 7.0], 1, 1) } else { fill_table(wdt, &ws, &[1.0, -2.0, 127.0, -128.0, 0.0], 1, 1) };
+            let ks: Vec<i64> = ws[2..].iter().map(|v| *v as i64).collect();
+            out.push(Case::new("ConvInteger", "w_zero_point per channel", vec![Some(x.clone()), Some(w.clone()), Some(RT::scalar(xdt, 1.0)), Some(fill_table(wdt, &[ws[0]], &[1.0, 0.0, 3.0], 1, 0))]).attr_is("kernel_shape", &ks).vclass(""));
+            out.push(Case::new("ConvInteger", "both zero points scalar", vec![Some(x), Some(w), Some(RT::scalar(xdt, 1.0)), Some(RT::scalar(wdt, 2.0))]).attr_is("kernel_shape", &ks).vclass(""));
         }
     }
     out
@@ -808,9 +818,9 @@ fn dynamic_quantize(_tier: Tier) -> Vec<Case> {
 
 fn matmul_integer(tier: Tier) -> Vec<Case> {
     let mut out = Vec::new();
-    let mut shapes_: Vec<(Vec<usize>, Vec<usize>)> = vec![(vec![2, 3], vec![3, 2]), (vec![1, 1], vec![1, 1]), (vec![3, 5], vec![5, 1]), (vec![2, 2, 3], vec![3, 2]), (vec![2, 2, 3], vec![2, 3, 2]), (vec![4], vec![4, 3]), (vec![7, 9], vec![9, 17])];
+    let mut shapes_: Vec<(Vec<usize>, Vec<usize>)> = vec![(vec![2, 3], vec![3, 2]), (vec![1, 1], vec![1, 1]), (vec![3, 5], vec![5, 1]), (vec![2, 2, 3], vec![3, 2]), (vec![2, 2, 3], vec![2, 3, 2]), (vec![4], vec![4, 3]), (vec![7, 9], vec![9, 17]), (vec![17, 5], vec![5, 70])];
     if tier.is_thorough() {
-        shapes_.extend(vec![(vec![16, 33], vec![33, 20]), (vec![1, 64], vec![64, 8]), (vec![5, 4], vec![4, 31])]);
+        shapes_.extend(vec![(vec![16, 33], vec![33, 20]), (vec![1, 64], vec![64, 8]), (vec![5, 4], vec![4, 31]), (vec![33, 3], vec![3, 2]), (vec![3, 7], vec![7, 64]), (vec![40, 9], vec![9, 70]), (vec![2, 17, 5], vec![5, 35])]);
     }
     for (adt, bdt) in [(Dt::U8, Dt::U8), (Dt::U8, Dt::I8), (Dt::I8, Dt::I8), (Dt::I8, Dt::U8)] {
         for (a_s, b_s) in &shapes_ {
@@ -832,7 +842,7 @@ fn matmul_integer(tier: Tier) -> Vec<Case> {
             for (zn, extra) in zps {
                 let mut ins = vec![Some(a.clone()), Some(b.clone())];
                 ins.extend(extra);
-                out.push(Case::new("MatMulInteger", format!("{}; lhs rank {} rhs rank {}", zn, a_s.len(), b_s.len()), ins).vclass(format!("a {} b {}", adt.name(), bdt.name())));
+                out.push(Case::new("MatMulInteger", zn, ins).vclass(""));
             }
         }
     }
